@@ -93,6 +93,13 @@ func one(r *rep.Report, rng *prng.R, orig *p9p.Fcall, msize int, live bool) {
 	if !live {
 		cancel()
 	}
+	// one call in eight has its context cancelled DURING the call (after the entry check): the call is
+	// past the point of no return, so it must behave exactly like a live one, and must not leave
+	// anything behind that a later write would flush
+	midCancel := live && rng.Chance(1, 8)
+	if midCancel {
+		conn.OnWriteDeadline = cancel
+	}
 	var err error
 	panicked := func() (p bool) {
 		defer func() {
@@ -120,6 +127,19 @@ func one(r *rep.Report, rng *prng.R, orig *p9p.Fcall, msize int, live bool) {
 		res = sx.L(sx.Sym("other"))
 	}
 	r.Case(c, sx.L(sx.B(out), res), fmt.Sprintf("write:%s", sx.String(res)[1:4]), true)
+	if midCancel && !panicked {
+		// a second, small message on the same channel: exactly its own frame must appear
+		conn.OnWriteDeadline = nil
+		n1 := len(conn.Written)
+		second := &p9p.Fcall{Type: p9p.Tclunk, Tag: 77, Message: p9p.MessageTclunk{Fid: 9}}
+		e2 := ch.WriteFcall(context.Background(), second)
+		ref2, _ := wiregen.RefEncode(second)
+		got2 := conn.Written[n1:]
+		if msize >= 24 && (e2 != nil || len(got2) != len(ref2)+4 || !bytes.Equal(got2[4:], ref2)) {
+			r.Fail("channel.WriteFcall.residue", fmt.Sprintf("after a call whose context ended mid-call (result %v, %d bytes emitted) the next write put %d bytes on the connection instead of its own %d-byte frame", err, n1, len(got2), len(ref2)+4), c, nil)
+		}
+		r.Hist["write:midcancel"]++
+	}
 
 	// ---- direct oracles (property text), for msize >= 24 ----
 	if !bytes.Equal(callerBuf[:cap(callerBuf)], snapshot) {
